@@ -13,7 +13,7 @@ from __future__ import annotations
 import types
 
 from engine import coop
-from engine.api import SEED, cond, pick, task
+from engine.api import SEED, HarnessModelError, cond, harness_side, pick, task
 from engine.reglob import reglobalize
 
 from vgi_rpc import pool as pool_mod
@@ -29,11 +29,13 @@ ENCODED = [
     pool_mod._PooledTransport.close,
 ]
 BOUNDS = "quick: 2 borrowers (borrow, use, return) + 1 reaper sweep, start thread + 1 preemption, max_idle 0..2, 0..2 pre-idle workers; thorough: + pool.close thread, 2 preemptions; statement granularity; integer clock"
-OUTSIDE = "real subprocesses and pipes; whether an interrupted unary call leaves unread bytes on the pipe (needs the real pipe); the RpcConnection/proxy layer between connect() and the transport; preemption inside a statement"
+OUTSIDE = "worker leaks (a worker neither idle nor closed) and double closes (not in the statement); real subprocesses and pipes; whether an interrupted unary call leaves unread bytes on the pipe (needs the real pipe); the RpcConnection/proxy layer between connect() and the transport; preemption inside a statement"
 ASSUMPTIONS = [
     "SubprocessTransport := fake whose proc.poll() is None iff a symbolic 'alive' flag; close() only records",
     "time.monotonic := scripted non-decreasing integer clock",
-    "a borrower marks its stream as opened-and-not-closed via the attributes _PooledTransport.close reads",
+    "a borrower marks its stream as opened-and-not-closed via the attribute _PooledTransport.close reads (guarded: if it is gone the item is inconclusive)",
+    "monitor = the property's rules only: hand-out (not held by another borrower, alive, not closed, not after an abandoned stream), idle <= max_idle whenever the pool lock is free, and whatever is left in the idle set is alive-for-reuse (not closed, not abandoned); no metrics counters, close counts or leak accounting",
+    "the preemption-point bounds are measured from un-preempted runs of the model at import (longest thread / longest run + 3)",
 ]
 
 
@@ -47,6 +49,9 @@ class _Proc:
     def poll(self):  # type: ignore[no-untyped-def]
         return None if self.alive else 1
 
+    def __getattr__(self, name: str):  # type: ignore[no-untyped-def]
+        raise HarnessModelError(f"fake worker process has no .{name}: the pool uses more of Popen than the model covers")
+
 
 class _FakeTransport:
     def __init__(self, key: tuple, alive: bool, world: "_World") -> None:
@@ -58,11 +63,15 @@ class _FakeTransport:
     def close(self) -> None:
         self.closed += 1
 
+    def __getattr__(self, name: str):  # type: ignore[no-untyped-def]
+        raise HarnessModelError(f"fake SubprocessTransport has no .{name}: the pool uses more of the transport than the model covers")
+
 
 class _World:
     def __init__(self) -> None:
         self.transports: list[_FakeTransport] = []
         self.out: list[_FakeTransport] = []  # handed out, not yet returned
+        self.abandoned: list[_FakeTransport] = []  # a borrower left a stream open on it: must never serve again
         self.bad: list[str] = []
         self.now = 0
         self.spawn_alive = True
@@ -71,7 +80,7 @@ class _World:
 _WORLD: list[_World] = []
 
 
-def _spawn(cmd, stderr=None, stderr_logger=None):  # stands in for SubprocessTransport(...)
+def _spawn(cmd, *a, **k):  # stands in for SubprocessTransport(...)
     w = _WORLD[-1]
     return _FakeTransport(tuple(cmd), w.spawn_alive, w)
 
@@ -79,6 +88,30 @@ def _spawn(cmd, stderr=None, stderr_logger=None):  # stands in for SubprocessTra
 class _TimeShim(types.ModuleType):
     def monotonic(self) -> int:
         return _WORLD[-1].now
+
+    def __getattr__(self, name: str):  # type: ignore[no-untyped-def]
+        raise HarnessModelError(f"time.{name} is not modelled (only time.monotonic, scripted)")
+
+
+def _need(obj, name: str):  # type: ignore[no-untyped-def]
+    """Read a private attribute the monitor observes; if the code no longer has it the scenario
+    cannot be observed: a harness-model problem (INCONCLUSIVE), never a finding."""
+    try:
+        return getattr(obj, name)
+    except AttributeError as e:
+        raise HarnessModelError(f"{type(obj).__name__}.{name} is gone: the pool monitor cannot observe the idle set") from e
+
+
+def _idle_transports(pool) -> list:  # type: ignore[no-untyped-def]
+    return [_need(e, "transport") for dq in _need(pool, "_idle").values() for e in dq]
+
+
+def _mark_stream_abandoned(pt) -> None:  # type: ignore[no-untyped-def]
+    """What a borrower that opened a stream and never closed it leaves behind (the flag
+    _PooledTransport.close reads)."""
+    if "_stream_opened" not in getattr(type(pt), "__slots__", ()) and not hasattr(pt, "_stream_opened"):
+        raise HarnessModelError("_PooledTransport._stream_opened is gone: cannot script an abandoned stream")
+    pt._stream_opened = True
 
 
 class _AtexitStub(types.ModuleType):
@@ -109,28 +142,30 @@ _init = reglobalize(pool_mod.WorkerPool.__init__, threading=_THREADING, atexit=_
 KEY = ("worker", "--x")
 
 
+def _on_hand_out(pool, world, t, bad: list) -> None:  # type: ignore[no-untyped-def]
+    """The moment a borrower is given worker t: the property's hand-out rules."""
+    if t in world.out:
+        bad.append("handed out twice")
+    if t.proc.poll() is not None:
+        bad.append("dead worker handed out")
+    if t.closed:
+        bad.append("closed worker handed out")
+    if t in world.abandoned:
+        bad.append("worker handed out after an abandoned stream")
+
+
 @coop._mark
 def _borrower(pool, world, abandon: bool, i: int):
     t = yield from coop._cc(pool._borrow, KEY)
-    # hand-out checks (the moment a borrower gets the worker)
-    if t in world.out:
-        world.bad.append("handed out twice")
-    if t.proc.poll() is not None:
-        world.bad.append("dead worker handed out")
-    if t.closed:
-        world.bad.append("closed worker handed out")
-    for dq in pool._idle.values():
-        for e in dq:
-            if e.transport is t:
-                world.bad.append("worker is both idle and handed out")
+    _on_hand_out(pool, world, t, world.bad)
     world.out.append(t)
+    yield coop.HP  # the borrower uses the worker: any other thread may run here
     pt = pool_mod._PooledTransport(t, pool)
     if abandon:
-        pt._stream_opened = True  # a stream was opened and never closed
+        _mark_stream_abandoned(pt)  # a stream was opened and never closed
+        world.abandoned.append(t)
     world.out.remove(t)  # ownership goes back to the pool inside close()
     yield from coop._cc(pt.close)
-    if abandon and not t.closed:
-        world.bad.append("worker with an abandoned stream was not discarded")
     return None
 
 
@@ -170,15 +205,13 @@ def _scenario(real: bool, max_idle: int, n_idle: int, alive0: bool, alive1: bool
             s.spawn(_closer, pool, world)
 
         def inv() -> bool:
-            if pool._lock.owner is not None:
+            if _need(pool, "_lock").owner is not None:
                 return True  # inside a critical section
-            total = 0
-            for dq in pool._idle.values():
-                for e in dq:
-                    total += 1
-                    if e.transport in world.out:
-                        return False
-            return total <= pool._max_idle
+            idle = _idle_transports(pool)
+            for tr in idle:
+                if tr in world.out:
+                    return False  # a worker is idle (borrowable) while a borrower holds it
+            return len(idle) <= max(max_idle, 0)
 
         s.invariant = inv
         s.run(first, pre)
@@ -188,27 +221,38 @@ def _scenario(real: bool, max_idle: int, n_idle: int, alive0: bool, alive1: bool
         _WORLD.pop()
 
 
-def _verdict(s, pool, world, n_pre_idle: int) -> bool:  # type: ignore[no-untyped-def]
-    if s.deadlocked or s.invariant_failed_at is not None or world.bad:
-        return False
+def _problems(s, pool, world, max_idle: int) -> list[str]:  # type: ignore[no-untyped-def]
+    """Everything the property forbids, and nothing else (no metrics counters, no close counts, no
+    leak accounting: those are not in the statement)."""
+    bad = list(world.bad)
+    if s.deadlocked:
+        bad.append("deadlock")
+    if s.invariant_failed_at is not None:
+        bad.append("idle-exceeds-max_idle-or-idle-while-held")
     for t in s.threads:
-        if t.exc is not None or not t.done:
-            return False
-    idle = [e.transport for dq in pool._idle.values() for e in dq]
-    if len(idle) > pool._max_idle:
-        return False
+        if t.exc is not None:
+            why = harness_side(t.exc)
+            if why:
+                raise HarnessModelError("scenario thread: " + why)
+            bad.append("exception:" + type(t.exc).__name__)
+        elif not t.done:
+            bad.append("thread-did-not-finish")
+    idle = _idle_transports(pool)
+    if len(idle) > max(max_idle, 0):
+        bad.append("idle-exceeds-max_idle")
     if len(set(map(id, idle))) != len(idle):
-        return False
-    # no leak: every worker ends up idle xor closed exactly once
-    for tr in world.transports:
-        in_idle = any(tr is x for x in idle)
-        if in_idle == bool(tr.closed):
-            return False
-        if tr.closed > 1:
-            return False
-    if pool._active != 0:
-        return False
-    return True
+        bad.append("worker-twice-in-idle-set")
+    for tr in idle:
+        # whatever sits in the idle set is what the next borrower gets
+        if tr.closed:
+            bad.append("closed-worker-kept-for-reuse")
+        if tr in world.abandoned:
+            bad.append("abandoned-stream-worker-kept-for-reuse")
+    return bad
+
+
+def _verdict(s, pool, world, max_idle: int) -> bool:  # type: ignore[no-untyped-def]
+    return not _problems(s, pool, world, max_idle)
 
 
 def _args_of(a: dict, with_close: bool, k: int):  # type: ignore[no-untyped-def]
@@ -217,8 +261,16 @@ def _args_of(a: dict, with_close: bool, k: int):  # type: ignore[no-untyped-def]
     return (a["max_idle"], a["n_idle"], a["alive0"], a["alive1"], age0, age1, timeout, now, a["ab0"], a["ab1"], with_close, a["first"], pre)
 
 
-def _signature(a: dict, conc) -> str:  # type: ignore[no-untyped-def]
-    return "C32:max_idle=0-pools-worker" if a.get("max_idle") == 0 else "C32:schedule"
+def _signature_for(with_close, k: int):  # type: ignore[no-untyped-def]
+    def sig(a: dict, conc) -> str:  # type: ignore[no-untyped-def]
+        s_, pool, world = _scenario(False, *_args_of(a, with_close, k))
+        bad = _problems(s_, pool, world, a["max_idle"])
+        first = bad[0] if bad else "none"
+        if a.get("max_idle") == 0 and first.startswith("idle-exceeds-max_idle"):
+            return "C32:max_idle=0-pools-worker"
+        return "C32:" + first.replace(" ", "-")
+
+    return sig
 
 
 def _replay_factory(with_close: bool, k: int):
@@ -228,7 +280,7 @@ def _replay_factory(with_close: bool, k: int):
 
         args = _args_of(a, with_close, k)
         s, pool, world = _scenario(False, *args)
-        if _verdict(s, pool, world, a["n_idle"]):
+        if _verdict(s, pool, world, a["max_idle"]):
             return None
         max_idle, n_idle, alive0, alive1, age0, age1, timeout, now, ab0, ab1, wc, first, pre = args
         rworld = _World()
@@ -252,26 +304,22 @@ def _replay_factory(with_close: bool, k: int):
             max_seen = [0]
 
             def note() -> None:
-                max_seen[0] = max(max_seen[0], sum(len(d) for d in rpool._idle.values()))
+                idle = _idle_transports(rpool)
+                max_seen[0] = max(max_seen[0], len(idle))
 
             def borrower(ab: bool):
                 def run() -> None:
                     t = rpool._borrow(KEY)
-                    if t in rworld.out:
-                        bad.append("handed out twice")
-                    if t.proc.poll() is not None:
-                        bad.append("dead worker handed out")
-                    if t.closed:
-                        bad.append("closed worker handed out")
+                    _on_hand_out(rpool, rworld, t, bad)
                     rworld.out.append(t)
+                    coop.harness_point()
                     pt = pool_mod._PooledTransport(t, rpool)
                     if ab:
-                        pt._stream_opened = True
+                        _mark_stream_abandoned(pt)
+                        rworld.abandoned.append(t)
                     rworld.out.remove(t)
                     pt.close()
                     note()
-                    if ab and not t.closed:
-                        bad.append("worker with an abandoned stream was not discarded")
 
                 return run
 
@@ -287,20 +335,21 @@ def _replay_factory(with_close: bool, k: int):
             for k2, v in saved.items():
                 setattr(pool_mod, k2, v)
             _WORLD.pop()
-        if res["diverged"] or not res["completed"]:
-            return None
+        if res["diverged"] or not res["completed"] or res.get("harness_side"):
+            return None  # the schedule could not be imposed, or a fake gave up: says nothing
         rworld.bad = bad
 
         class _S:
             deadlocked = False
-            invariant_failed_at = 1 if max_seen[0] > rpool._max_idle else None
+            invariant_failed_at = 1 if max_seen[0] > max(max_idle, 0) else None
             threads = [type("T", (), {"exc": None, "done": True})() for _ in bodies]
 
+        problems = _problems(_S, rpool, rworld, max_idle)
         if any(res["exceptions"]):
-            return f"real threads: exception {res['exceptions']}"
-        if not _verdict(_S, rpool, rworld, n_idle):
-            idle_n = sum(len(d) for d in rpool._idle.values())
-            return f"real WorkerPool on real threads ({res['segments']} segments): max_idle={rpool._max_idle} idle now={idle_n} peak={max_seen[0]} problems={bad} closed={[t.closed for t in rworld.transports]} active={rpool._active}"
+            problems.append(f"exception {[e for e in res['exceptions'] if e]}")
+        if problems:
+            idle_n = len(_idle_transports(rpool))
+            return f"real WorkerPool on real threads ({res['segments']} segments): max_idle={max(max_idle, 0)} idle now={idle_n} peak={max_seen[0]} problems={problems} closed={[t.closed for t in rworld.transports]}"
         return None
 
     return replay
@@ -316,7 +365,7 @@ def _ages(exp0: bool, exp1: bool) -> tuple[int, int, int, int]:
 def _bar(mode, max_idle: int, n_idle: int, alive0: bool, alive1: bool, exp0: bool, exp1: bool, ab0: bool, ab1: bool, first: int, p1: int, t1: int) -> bool:  # type: ignore[no-untyped-def]
     age0, age1, timeout, now = _ages(exp0, exp1)
     s, pool, world = _scenario(False, max_idle, n_idle, alive0, alive1, age0, age1, timeout, now, ab0, ab1, mode, first, [(p1, t1)])
-    return _verdict(s, pool, world, n_idle)
+    return _verdict(s, pool, world, max_idle)
 
 
 def _bar_replay(mode, max_idle: int, n_idle: int):  # type: ignore[no-untyped-def]
@@ -329,142 +378,172 @@ def _bar_replay(mode, max_idle: int, n_idle: int):  # type: ignore[no-untyped-de
     return replay
 
 
-_SIG0 = lambda a, c: "C32:max_idle=0-pools-worker"  # noqa: E731
-_SIGN = lambda a, c: "C32:schedule"  # noqa: E731
+def _sig_factory(mode, max_idle: int, n_idle: int):  # type: ignore[no-untyped-def]
+    """Signature = what the property-level monitor saw first on the counterexample schedule."""
+
+    def sig(a: dict, conc) -> str:  # type: ignore[no-untyped-def]
+        full = {"alive0": True, "alive1": True, "exp0": False, "exp1": False, "ab1": False, "t1": 1 - a.get("first", 0), **a, "max_idle": max_idle, "n_idle": n_idle}
+        s_, pool, world = _scenario(False, *_args_of(full, mode, 1))
+        bad = _problems(s_, pool, world, max_idle)
+        first = bad[0] if bad else "none"
+        if max_idle == 0 and first.startswith("idle-exceeds-max_idle"):
+            return "C32:max_idle=0-pools-worker"
+        return "C32:" + first.replace(" ", "-")
+
+    return sig
+
+
+def _measure() -> tuple[int, int]:
+    """Bounds for the preemption points, derived from the model instead of guessed: the longest
+    statement count of one scenario thread (a later point can only hit a finished thread) and the
+    longest whole run, over un-preempted runs of every thread set / pre-idle configuration."""
+    import collections
+
+    one, whole = 0, 0
+    for mode in (2, 3, False, True):
+        for n_idle in (0, 1, 2):
+            for flag in (False, True):
+                for exp in (False, True):
+                    age0, age1, timeout, now = _ages(exp, exp)
+                    s_, _pool, _world = _scenario(False, 2, n_idle, flag, flag, age0, age1, timeout, now, flag, flag, mode, 0, [])
+                    per = collections.Counter(e[0] for e in s_.trace if e[1])
+                    one, whole = max(one, max(per.values())), max(whole, sum(per.values()))
+    return one + 3, whole + 3
+
+
+_P1, _P2 = _measure()
 _B = "%s, start thread + 1 preemption; this item: max_idle=%d with %d pre-idle worker(s), each alive/dead and expired/fresh, each borrower abandoning a stream or not"
 
 # The (thread set, max_idle, pre-idle) grid is split into one item per cell so that the cells run
 # in parallel; inside a cell everything else (schedule, liveness, expiry, abandonment) is symbolic.
 
 
-@cond(q=220, t=600, engine="coop", encoded=ENCODED, stubs=ASSUMPTIONS[:2], bound=_B % ("2 borrowers", 0, 0), replay=_bar_replay(2, 0, 0), signature=_SIG0)
+@cond(q=220, t=600, engine="coop", encoded=ENCODED, stubs=ASSUMPTIONS[:2], bound=_B % ("2 borrowers", 0, 0), replay=_bar_replay(2, 0, 0), signature=_sig_factory(2, 0, 0))
 def pool_bb_m0_i0(ab0: bool, ab1: bool, first: int, p1: int) -> bool:
     """
-    pre: 0 <= first <= 1 and 0 <= p1 <= 45
+    pre: 0 <= first <= 1 and 0 <= p1 <= _P1
     post: _
     """
     return _bar(2, 0, 0, True, True, False, False, ab0, ab1, first, p1, 1 - first)
 
 
-@cond(q=220, t=600, engine="coop", encoded=ENCODED, stubs=ASSUMPTIONS[:2], bound=_B % ("2 borrowers", 1, 0), replay=_bar_replay(2, 1, 0), signature=_SIGN)
+@cond(q=220, t=600, engine="coop", encoded=ENCODED, stubs=ASSUMPTIONS[:2], bound=_B % ("2 borrowers", 1, 0), replay=_bar_replay(2, 1, 0), signature=_sig_factory(2, 1, 0))
 def pool_bb_m1_i0(ab0: bool, ab1: bool, first: int, p1: int) -> bool:
     """
-    pre: 0 <= first <= 1 and 0 <= p1 <= 45
+    pre: 0 <= first <= 1 and 0 <= p1 <= _P1
     post: _
     """
     return _bar(2, 1, 0, True, True, False, False, ab0, ab1, first, p1, 1 - first)
 
 
-@cond(q=450, t=700, engine="coop", encoded=ENCODED, stubs=ASSUMPTIONS[:2], bound=_B % ("2 borrowers", 1, 1), replay=_bar_replay(2, 1, 1), signature=_SIGN)
+@cond(q=450, t=700, engine="coop", encoded=ENCODED, stubs=ASSUMPTIONS[:2], bound=_B % ("2 borrowers", 1, 1), replay=_bar_replay(2, 1, 1), signature=_sig_factory(2, 1, 1))
 def pool_bb_m1_i1(alive0: bool, exp0: bool, ab0: bool, ab1: bool, first: int, p1: int) -> bool:
     """
-    pre: 0 <= first <= 1 and 0 <= p1 <= 45
+    pre: 0 <= first <= 1 and 0 <= p1 <= _P1
     post: _
     """
     return _bar(2, 1, 1, alive0, True, exp0, False, ab0, ab1, first, p1, 1 - first)
 
 
-@cond(q=220, t=600, tiers=("thorough",), engine="coop", encoded=ENCODED, stubs=ASSUMPTIONS[:2], bound=_B % ("2 borrowers", 2, 0), replay=_bar_replay(2, 2, 0), signature=_SIGN)
+@cond(q=220, t=600, tiers=("thorough",), engine="coop", encoded=ENCODED, stubs=ASSUMPTIONS[:2], bound=_B % ("2 borrowers", 2, 0), replay=_bar_replay(2, 2, 0), signature=_sig_factory(2, 2, 0))
 def pool_bb_m2_i0(ab0: bool, ab1: bool, first: int, p1: int) -> bool:
     """
-    pre: 0 <= first <= 1 and 0 <= p1 <= 45
+    pre: 0 <= first <= 1 and 0 <= p1 <= _P1
     post: _
     """
     return _bar(2, 2, 0, True, True, False, False, ab0, ab1, first, p1, 1 - first)
 
 
-@cond(q=450, t=700, engine="coop", encoded=ENCODED, stubs=ASSUMPTIONS[:2], bound=_B % ("2 borrowers", 2, 1), replay=_bar_replay(2, 2, 1), signature=_SIGN)
+@cond(q=450, t=700, engine="coop", encoded=ENCODED, stubs=ASSUMPTIONS[:2], bound=_B % ("2 borrowers", 2, 1), replay=_bar_replay(2, 2, 1), signature=_sig_factory(2, 2, 1))
 def pool_bb_m2_i1(alive0: bool, exp0: bool, ab0: bool, ab1: bool, first: int, p1: int) -> bool:
     """
-    pre: 0 <= first <= 1 and 0 <= p1 <= 45
+    pre: 0 <= first <= 1 and 0 <= p1 <= _P1
     post: _
     """
     return _bar(2, 2, 1, alive0, True, exp0, False, ab0, ab1, first, p1, 1 - first)
 
 
-@cond(q=450, t=700, tiers=("thorough",), engine="coop", encoded=ENCODED, stubs=ASSUMPTIONS[:2], bound=_B % ("2 borrowers", 2, 2), replay=_bar_replay(2, 2, 2), signature=_SIGN)
+@cond(q=450, t=700, tiers=("thorough",), engine="coop", encoded=ENCODED, stubs=ASSUMPTIONS[:2], bound=_B % ("2 borrowers", 2, 2), replay=_bar_replay(2, 2, 2), signature=_sig_factory(2, 2, 2))
 def pool_bb_m2_i2(alive0: bool, exp0: bool, alive1: bool, exp1: bool, ab0: bool, ab1: bool, first: int, p1: int) -> bool:
     """
-    pre: (exp0 or not exp1) and 0 <= first <= 1 and 0 <= p1 <= 45
+    pre: (exp0 or not exp1) and 0 <= first <= 1 and 0 <= p1 <= _P1
     post: _
     """
     return _bar(2, 2, 2, alive0, alive1, exp0, exp1, ab0, ab1, first, p1, 1 - first)
 
 
-@cond(q=220, t=600, engine="coop", encoded=ENCODED, stubs=ASSUMPTIONS[:2], bound=_B % ("1 borrower + reaper sweep", 0, 0), replay=_bar_replay(3, 0, 0), signature=_SIG0)
+@cond(q=220, t=600, engine="coop", encoded=ENCODED, stubs=ASSUMPTIONS[:2], bound=_B % ("1 borrower + reaper sweep", 0, 0), replay=_bar_replay(3, 0, 0), signature=_sig_factory(3, 0, 0))
 def pool_br_m0_i0(ab0: bool, first: int, p1: int) -> bool:
     """
-    pre: 0 <= first <= 1 and 0 <= p1 <= 45
+    pre: 0 <= first <= 1 and 0 <= p1 <= _P1
     post: _
     """
     return _bar(3, 0, 0, True, True, False, False, ab0, False, first, p1, 1 - first)
 
 
-@cond(q=220, t=600, tiers=("thorough",), engine="coop", encoded=ENCODED, stubs=ASSUMPTIONS[:2], bound=_B % ("1 borrower + reaper sweep", 1, 0), replay=_bar_replay(3, 1, 0), signature=_SIGN)
+@cond(q=220, t=600, tiers=("thorough",), engine="coop", encoded=ENCODED, stubs=ASSUMPTIONS[:2], bound=_B % ("1 borrower + reaper sweep", 1, 0), replay=_bar_replay(3, 1, 0), signature=_sig_factory(3, 1, 0))
 def pool_br_m1_i0(ab0: bool, first: int, p1: int) -> bool:
     """
-    pre: 0 <= first <= 1 and 0 <= p1 <= 45
+    pre: 0 <= first <= 1 and 0 <= p1 <= _P1
     post: _
     """
     return _bar(3, 1, 0, True, True, False, False, ab0, False, first, p1, 1 - first)
 
 
-@cond(q=450, t=700, engine="coop", encoded=ENCODED, stubs=ASSUMPTIONS[:2], bound=_B % ("1 borrower + reaper sweep", 1, 1), replay=_bar_replay(3, 1, 1), signature=_SIGN)
+@cond(q=450, t=700, engine="coop", encoded=ENCODED, stubs=ASSUMPTIONS[:2], bound=_B % ("1 borrower + reaper sweep", 1, 1), replay=_bar_replay(3, 1, 1), signature=_sig_factory(3, 1, 1))
 def pool_br_m1_i1(alive0: bool, exp0: bool, ab0: bool, first: int, p1: int) -> bool:
     """
-    pre: 0 <= first <= 1 and 0 <= p1 <= 45
+    pre: 0 <= first <= 1 and 0 <= p1 <= _P1
     post: _
     """
     return _bar(3, 1, 1, alive0, True, exp0, False, ab0, False, first, p1, 1 - first)
 
 
-@cond(q=220, t=600, tiers=("thorough",), engine="coop", encoded=ENCODED, stubs=ASSUMPTIONS[:2], bound=_B % ("1 borrower + reaper sweep", 2, 0), replay=_bar_replay(3, 2, 0), signature=_SIGN)
+@cond(q=220, t=600, tiers=("thorough",), engine="coop", encoded=ENCODED, stubs=ASSUMPTIONS[:2], bound=_B % ("1 borrower + reaper sweep", 2, 0), replay=_bar_replay(3, 2, 0), signature=_sig_factory(3, 2, 0))
 def pool_br_m2_i0(ab0: bool, first: int, p1: int) -> bool:
     """
-    pre: 0 <= first <= 1 and 0 <= p1 <= 45
+    pre: 0 <= first <= 1 and 0 <= p1 <= _P1
     post: _
     """
     return _bar(3, 2, 0, True, True, False, False, ab0, False, first, p1, 1 - first)
 
 
-@cond(q=450, t=700, engine="coop", encoded=ENCODED, stubs=ASSUMPTIONS[:2], bound=_B % ("1 borrower + reaper sweep", 2, 1), replay=_bar_replay(3, 2, 1), signature=_SIGN)
+@cond(q=450, t=700, engine="coop", encoded=ENCODED, stubs=ASSUMPTIONS[:2], bound=_B % ("1 borrower + reaper sweep", 2, 1), replay=_bar_replay(3, 2, 1), signature=_sig_factory(3, 2, 1))
 def pool_br_m2_i1(alive0: bool, exp0: bool, ab0: bool, first: int, p1: int) -> bool:
     """
-    pre: 0 <= first <= 1 and 0 <= p1 <= 45
+    pre: 0 <= first <= 1 and 0 <= p1 <= _P1
     post: _
     """
     return _bar(3, 2, 1, alive0, True, exp0, False, ab0, False, first, p1, 1 - first)
 
 
-@cond(q=450, t=700, tiers=("thorough",), engine="coop", encoded=ENCODED, stubs=ASSUMPTIONS[:2], bound=_B % ("1 borrower + reaper sweep", 2, 2), replay=_bar_replay(3, 2, 2), signature=_SIGN)
+@cond(q=450, t=700, tiers=("thorough",), engine="coop", encoded=ENCODED, stubs=ASSUMPTIONS[:2], bound=_B % ("1 borrower + reaper sweep", 2, 2), replay=_bar_replay(3, 2, 2), signature=_sig_factory(3, 2, 2))
 def pool_br_m2_i2(alive0: bool, exp0: bool, alive1: bool, exp1: bool, ab0: bool, first: int, p1: int) -> bool:
     """
-    pre: (exp0 or not exp1) and 0 <= first <= 1 and 0 <= p1 <= 45
+    pre: (exp0 or not exp1) and 0 <= first <= 1 and 0 <= p1 <= _P1
     post: _
     """
     return _bar(3, 2, 2, alive0, alive1, exp0, exp1, ab0, False, first, p1, 1 - first)
 
 
-@cond(q=60, t=900, tiers=("thorough",), engine="coop", encoded=ENCODED, stubs=ASSUMPTIONS[:2], bound="2 borrowers + reaper, start thread + 1 preemption, max_idle 0..2, pre-idle 0..2 (all symbolic)", replay=_replay_factory(False, 1), signature=_signature)
+@cond(q=60, t=900, tiers=("thorough",), engine="coop", encoded=ENCODED, stubs=ASSUMPTIONS[:2], bound="2 borrowers + reaper, start thread + 1 preemption, max_idle 0..2, pre-idle 0..2 (all symbolic)", replay=_replay_factory(False, 1), signature=_signature_for(False, 1))
 def borrowers_and_reaper(max_idle: int, n_idle: int, alive0: bool, alive1: bool, exp0: bool, exp1: bool, ab0: bool, ab1: bool, first: int, p1: int, t1: int) -> bool:
     """
     pre: 0 <= max_idle <= 2 and 0 <= n_idle <= 2 and n_idle <= max_idle and (exp0 or not exp1)
-    pre: 0 <= first <= 2 and 0 <= t1 <= 2 and 0 <= p1 <= 60
+    pre: 0 <= first <= 2 and 0 <= t1 <= 2 and 0 <= p1 <= _P2
     post: _
     """
     return _bar(False, max_idle, n_idle, alive0, alive1, exp0, exp1, ab0, ab1, first, p1, t1)
 
 
 @cond(q=60, t=1500, tiers=("thorough",), engine="coop", encoded=ENCODED, stubs=ASSUMPTIONS[:2], bound="2 borrowers + reaper + close, 2 preemptions, max_idle 0..2, pre-idle 0..2",
-      replay=_replay_factory(True, 2), signature=_signature)
+      replay=_replay_factory(True, 2), signature=_signature_for(True, 2))
 def with_pool_close(max_idle: int, n_idle: int, alive0: bool, alive1: bool, exp0: bool, exp1: bool, ab0: bool, ab1: bool, first: int, p1: int, t1: int, p2: int, t2: int) -> bool:
     """
     pre: 0 <= max_idle <= 2 and 0 <= n_idle <= 2 and n_idle <= max_idle and (exp0 or not exp1)
-    pre: 0 <= first <= 3 and 0 <= t1 <= 3 and 0 <= t2 <= 3 and 0 <= p1 < p2 <= 80
+    pre: 0 <= first <= 3 and 0 <= t1 <= 3 and 0 <= t2 <= 3 and 0 <= p1 < p2 <= _P2
     post: _
     """
     age0, age1, timeout, now = _ages(exp0, exp1)
     s, pool, world = _scenario(False, max_idle, n_idle, alive0, alive1, age0, age1, timeout, now, ab0, ab1, True, first, [(p1, t1), (p2, t2)])
-    if any(len(d) for d in pool._idle.values()):
-        return False  # close() drains under the lock after setting _closed: nothing may stay idle
-    return _verdict(s, pool, world, n_idle)
+    return _verdict(s, pool, world, max_idle)
